@@ -344,6 +344,69 @@ func (g *gtree) anyName(t *rapid.T) []byte {
 	return g.missingName(t, -1)
 }
 
+// hostileName draws a walk element that cannot be (or, for 255 bytes, can only
+// just be) the name of a directory entry: longer than any entry name (256 bytes
+// and more, also built by extending an existing name), with a NUL byte, with a
+// '/'. Some are derived from a child of dir so that a server that cuts the
+// name (at 255 bytes, at the NUL, at the '/') would find something.
+func (g *gtree) hostileName(t *rapid.T, dir int) []byte {
+	var child []byte
+	if dir >= 0 && len(g.kids[dir]) > 0 {
+		child = g.nodes[g.kids[dir][rapid.IntRange(0, len(g.kids[dir])-1).Draw(t, "hostilechild")]].Name
+	}
+	if child == nil {
+		child = []byte("nx")
+	}
+	pad := func(b []byte, n int) []byte {
+		fill := rapid.SampledFrom([]byte{'L', 'x', 0xE9, ' ', '.'}).Draw(t, "fill")
+		out := append([]byte(nil), b...)
+		for len(out) < n {
+			out = append(out, fill)
+		}
+		return out[:n]
+	}
+	switch rapid.IntRange(0, 9).Draw(t, "hostileclass") {
+	case 0, 1, 2:
+		n := rapid.SampledFrom([]int{256, 256, 257, 300, 511, 1024, 4095, 4096, 4097}).Draw(t, "toolong")
+		if rapid.Bool().Draw(t, "extendchild") {
+			return pad(child, n) // an existing name (also a 255-byte one) plus more bytes
+		}
+		return pad([]byte{asciiRunes[rapid.IntRange(0, 35).Draw(t, "ch")]}, n)
+	case 3:
+		return pad([]byte{asciiRunes[rapid.IntRange(0, 35).Draw(t, "ch")]}, 255) // the longest name there can be (missing or not)
+	case 4, 5, 6:
+		switch rapid.IntRange(0, 5).Draw(t, "nulshape") {
+		case 0:
+			return []byte{0}
+		case 1:
+			return append(append([]byte(nil), child...), 0)
+		case 2:
+			return append(append(append([]byte(nil), child...), 0), "tail"...)
+		case 3:
+			return append([]byte{0}, child...)
+		case 4:
+			return pad(append(append([]byte(nil), child...), 0), 256)
+		default:
+			return []byte("a\x00b")
+		}
+	default:
+		switch rapid.IntRange(0, 5).Draw(t, "slashshape") {
+		case 0:
+			return append(append([]byte(nil), child...), "/nx~"...)
+		case 1:
+			return []byte("nx~/" + string(child))
+		case 2:
+			return []byte("nx~/")
+		case 3:
+			return []byte("/nx~")
+		case 4:
+			return append(append([]byte(nil), child...), '/') // ambiguous when child is a directory: skipped by the executor
+		default:
+			return []byte("nx~/x/y")
+		}
+	}
+}
+
 var fidPool = []uint32{1, 2, 3, 4, 5, 6, 7, 8, 0x7FFFFFFF, 0xFFFFFFFE}
 
 func genOps(t *rapid.T, g *gtree) []Op {
@@ -419,12 +482,34 @@ func genOps(t *rapid.T, g *gtree) []Op {
 				hx.Excluded(idSymStart)
 				n, want = 0, 0
 			}
-			names, at := g.descend(t, loc[fid], want, rapid.Bool().Draw(t, "deep"))
-			complete := len(names) == n
-			if !complete {
-				names = append(names, g.missingName(t, g.resolveDir(at)))
-				for len(names) < n {
+			// one walk in five has an element that cannot exist for another reason than
+			// absence (too long, NUL, '/'): as the FIRST name (then followed by names
+			// that exist below the fid) or where the existing prefix ends
+			hostile := n > 0 && rapid.IntRange(0, 4).Draw(t, "hostile") == 0
+			var names [][]byte
+			var at int
+			complete := false
+			if hostile && (want == 0 || rapid.Bool().Draw(t, "hostilefirst")) {
+				names = [][]byte{g.hostileName(t, g.resolveDir(loc[fid]))}
+				if n > 1 {
+					more, _ := g.descend(t, loc[fid], rapid.IntRange(0, n-1).Draw(t, "follow"), true)
+					names = append(names, more...)
+				}
+				for len(names) < n && rapid.Bool().Draw(t, "morejunk") {
 					names = append(names, g.anyName(t))
+				}
+			} else {
+				names, at = g.descend(t, loc[fid], want, rapid.Bool().Draw(t, "deep"))
+				complete = len(names) == n
+				if !complete {
+					if hostile {
+						names = append(names, g.hostileName(t, g.resolveDir(at)))
+					} else {
+						names = append(names, g.missingName(t, g.resolveDir(at)))
+					}
+					for len(names) < n {
+						names = append(names, g.anyName(t))
+					}
 				}
 			}
 			if hx.IsKnown(idInplace) && inplace && !complete && len(names) >= 2 && want >= 1 &&
@@ -550,6 +635,109 @@ func genCase(t *rapid.T) *Case {
 	return c
 }
 
+// genPipe draws 1..5 bursts (see Burst). The fid is put on a real directory S,
+// mostly near the root so that a long chain lies below it. The in-place walks
+// have up to 15 existing leading elements below S followed by a missing name
+// (mostly), or - one burst in eight - there is a single complete one. The
+// observers are Tstat F and Twalk F -> new fid with 0..3 names that exist below
+// S (or below the target of the complete walk), sometimes followed by a
+// missing one. The order of the requests in the write is a drawn permutation.
+func genPipe(t *rapid.T, g *gtree) []Burst {
+	var dirs []int // real directories reached through real directories
+	for i, n := range g.nodes {
+		if n.Kind == "d" {
+			dirs = append(dirs, i)
+		}
+	}
+	nb := rapid.IntRange(1, 5).Draw(t, "nbursts")
+	var out []Burst
+	for len(out) < nb {
+		S := 0
+		switch rapid.IntRange(0, 3).Draw(t, "startkind") {
+		case 0:
+		case 1, 2:
+			// one of the first directories (the spine comes first)
+			S = dirs[rapid.IntRange(0, min(len(dirs)-1, 3)).Draw(t, "startnear")]
+		default:
+			S = dirs[rapid.IntRange(0, len(dirs)-1).Draw(t, "startany")]
+		}
+		var start [][]byte
+		for i := S; i > 0; i = g.nodes[i].Parent {
+			start = append([][]byte{g.nodes[i].Name}, start...)
+		}
+		b := Burst{Start: start, Repeat: rapid.IntRange(1, 12).Draw(t, "repeat")}
+		T := -1
+		if rapid.IntRange(0, 7).Draw(t, "completeburst") == 0 {
+			names, at := g.descend(t, S, rapid.IntRange(1, 16).Draw(t, "completelen"), true)
+			if len(names) > 0 {
+				b.Reqs = append(b.Reqs, Op{Kind: "walk", Fid: pipeFid, Newfid: pipeFid, Names: names})
+				T = at
+			}
+		}
+		if T < 0 {
+			nw := rapid.SampledFrom([]int{1, 1, 1, 2, 2, 3, 4, 0}).Draw(t, "nwalkers")
+			for w := 0; w < nw; w++ {
+				want := rapid.OneOf(rapid.Just(15), rapid.Just(15), rapid.IntRange(0, 15)).Draw(t, "walkerprefix")
+				names, at := g.descend(t, S, want, true)
+				if rapid.IntRange(0, 9).Draw(t, "hostileend") == 0 {
+					names = append(names, g.hostileName(t, g.resolveDir(at)))
+				} else {
+					names = append(names, g.missingName(t, g.resolveDir(at)))
+				}
+				for len(names) < 16 && rapid.IntRange(0, 3).Draw(t, "tail") == 0 {
+					names = append(names, g.anyName(t))
+				}
+				b.Reqs = append(b.Reqs, Op{Kind: "walk", Fid: pipeFid, Newfid: pipeFid, Names: names})
+			}
+		}
+		no := rapid.IntRange(1, 10).Draw(t, "nobservers")
+		for o := 0; o < no; o++ {
+			if rapid.IntRange(0, 9).Draw(t, "obskind") < 5 {
+				b.Reqs = append(b.Reqs, Op{Kind: "stat", Fid: pipeFid})
+				continue
+			}
+			from := S
+			if T >= 0 && rapid.Bool().Draw(t, "fromtarget") {
+				from = T
+			}
+			names, at := g.descend(t, from, rapid.IntRange(0, 3).Draw(t, "obslen"), false)
+			switch rapid.IntRange(0, 7).Draw(t, "obsend") {
+			case 0, 1:
+				names = append(names, g.missingName(t, g.resolveDir(at)))
+			case 2:
+				if rapid.Bool().Draw(t, "obshostile") {
+					names = append(names, g.hostileName(t, g.resolveDir(at)))
+				} else if len(b.Reqs) > 0 && len(b.Reqs[0].Names) > 1 {
+					// the SECOND name of the in-place walk: a child of the first
+					// intermediate directory, usually not of S
+					names = [][]byte{b.Reqs[0].Names[1]}
+				}
+			}
+			b.Reqs = append(b.Reqs, Op{Kind: "walk", Fid: pipeFid, Names: names})
+		}
+		perm := rapid.Permutation(b.Reqs).Draw(t, "order")
+		for j := range perm {
+			if perm[j].Kind == "walk" && perm[j].Newfid != pipeFid {
+				perm[j].Newfid = pipeFid + 1 + uint32(j)
+			}
+		}
+		b.Reqs = perm
+		out = append(out, b)
+	}
+	return out
+}
+
+func genPipeCase(t *rapid.T) *Case {
+	c := &Case{}
+	c.SrvDotu = rapid.IntRange(0, 3).Draw(t, "srvdotu") != 0
+	c.CliDotu = rapid.IntRange(0, 2).Draw(t, "clidotu") != 0
+	c.Msize = rapid.SampledFrom([]uint32{8192, 16384, 65536}).Draw(t, "msize")
+	g := genTree(t, true)
+	c.Tree = g.nodes
+	c.Pipe = genPipe(t, g)
+	return c
+}
+
 // ---------------------------------------------------------------- tests
 
 func sampleOf(c *Case) interface{} {
@@ -567,6 +755,10 @@ func sampleOf(c *Case) interface{} {
 	if len(c.Conc) > 0 {
 		s["conc_goroutines"] = len(c.Conc)
 		s["conc_rounds"] = c.Rounds
+	}
+	if len(c.Pipe) > 0 {
+		s["bursts"] = len(c.Pipe)
+		s["burst_head"] = map[string]interface{}{"start_depth": len(c.Pipe[0].Start), "requests": len(c.Pipe[0].Reqs), "repeat": c.Pipe[0].Repeat}
 	}
 	if len(c.Cli) > 0 {
 		s["cli_head"] = map[string]interface{}{"op": c.Cli[0].Kind, "style": c.Cli[0].Style, "elements": len(c.Cli[0].Elems)}
@@ -615,33 +807,59 @@ func TestPropTree(t *testing.T) {
 	})
 }
 
+// TestPropPipe: requests pipelined on one fid next to in-place walks of that fid.
+func TestPropPipe(t *testing.T) {
+	hx.Check(t, "pipe", hx.N(150, 1000), func(t *rapid.T) {
+		c := genPipeCase(t)
+		hx.Journal("pipe", c)
+		hx.Sample("pipe", sampleOf(c))
+		labelTree(c)
+		if err := RunCase(c); err != nil {
+			if isInfra(err) {
+				hx.Inconclusive(err.Error())
+				t.Skip(err.Error())
+			}
+			hx.Failf(t, "pipe", c, "%v", err)
+		}
+	})
+}
+
 func TestReplay(t *testing.T) {
 	e, err := hx.LoadReplay()
 	if e == nil {
 		t.Skip("no replay file", err)
 	}
-	replayEnv(t, e)
+	replayEnv(t, e, 40)
 }
 
-func replayEnv(t *testing.T, e *hx.Envelope) {
+// replayEnv runs the case of an envelope; a case with bursts, whose verdict on
+// a defective server depends on the schedule, is run up to burstTries times.
+func replayEnv(t *testing.T, e *hx.Envelope, burstTries int) {
 	var c Case
 	if err := json.Unmarshal(e.Case, &c); err != nil {
 		t.Fatalf("bad case: %v", err)
 	}
 	hx.Journal(e.Test, &c)
-	if err := RunCase(&c); err != nil {
-		if isInfra(err) {
-			hx.Inconclusive(err.Error())
+	tries := 1
+	if len(c.Pipe) > 0 {
+		tries = burstTries
+	}
+	for i := 0; i < tries; i++ {
+		if err := RunCase(&c); err != nil {
+			if isInfra(err) {
+				hx.Inconclusive(err.Error())
+				return
+			}
+			hx.Violation(e.Test, &c, err.Error())
+			t.Errorf("%v", err)
 			return
 		}
-		hx.Violation(e.Test, &c, err.Error())
-		t.Errorf("%v", err)
 	}
 }
 
 func TestRegress(t *testing.T) {
 	for _, e := range hx.Regressions() {
-		replayEnv(t, e)
+		replayEnv(t, e, 3)
 		hx.Label("regress")
 	}
 }
@@ -696,6 +914,49 @@ func TestEnumWalks(t *testing.T) {
 	}
 	rec(nil)
 	starts := [][]string{{}, {"a"}, {"a", "b"}, {"f"}, {"l"}, {"a", "b", "c"}, {"c"}}
+	if enumWalks(t, "enum", enumTree(), starts, seqs) {
+		hx.Exhaustive("fixed 11-node tree (dirs, files, hard link, symlinks to a directory / to the parent / dangling / to itself): every Twalk of 0..3 names over {a,b,c,f,l,x} from 7 starting fids (root, dir, nested dir, 2 files, symlink to dir, dangling symlink), to a new fid and in place, both dialects")
+	}
+}
+
+// TestEnumFirstName enumerates Twalks whose FIRST name is at or beyond the
+// limits of what a directory entry can be called: the fixed tree plus a file
+// and a directory (holding "a") with 255-byte names; first names of 255 bytes
+// (existing and missing), 256, 257, 300, 1024, 4096 and 4097 bytes (fresh ones
+// and the existing 255-byte names extended), names with a NUL byte (alone, at
+// the end of / inside / in front of an existing name) and names with a '/'
+// whose joined path does not exist; alone and followed by 1..3 names that
+// exist below the starting directory; from the root and from a/; to a new fid
+// and in place; both dialects. The reference is os.Lstat of the joined path.
+func TestEnumFirstName(t *testing.T) {
+	rep := func(b byte, n int) string { return string(bytes.Repeat([]byte{b}, n)) }
+	tree := enumTree()
+	tree = append(tree,
+		Node{Parent: 0, Kind: "f", Name: []byte(rep('L', 255)), Mode: 0o640, Size: 3, Mtime: 1100000000},
+		Node{Parent: 0, Kind: "d", Name: []byte(rep('D', 255)), Mode: 0o755, Mtime: 1000000000},
+		Node{Parent: len(tree) + 1, Kind: "f", Name: []byte("a"), Mode: 0o600, Size: 1, Mtime: 900000000},
+	)
+	firsts := []string{
+		rep('L', 255), rep('D', 255), rep('L', 254) + "M", rep('x', 255),
+		rep('L', 256), rep('D', 256), rep('x', 256), rep('x', 257), rep('x', 300), rep('D', 300), rep('x', 1024), rep('x', 4096), rep('x', 4097),
+		"\x00", "a\x00", "a\x00b", "\x00a", "x\x00", rep('D', 255) + "\x00", rep('x', 299) + "\x00",
+		"x/", "/x", "x/a", "a/x", "x/a/b", "a\x00/b",
+	}
+	follows := [][]string{{}, {"a"}, {"a", "b"}, {"a", "b", "c"}, {"b"}, {"b", "c"}, {"x"}}
+	var seqs [][]string
+	for _, f := range firsts {
+		for _, fo := range follows {
+			seqs = append(seqs, append([]string{f}, fo...))
+		}
+	}
+	starts := [][]string{{}, {"a"}}
+	if enumWalks(t, "enum-first-name", tree, starts, seqs) {
+		hx.Exhaustive(fmt.Sprintf("fixed tree with 255-byte names: every Twalk whose first name is one of %d boundary names (255..4097 bytes, NUL bytes, '/' with a missing joined path) alone or followed by one of %d sequences of existing names, from 2 directories, to a new fid and in place, both dialects", len(firsts), len(follows)-1))
+	}
+}
+
+// enumWalks runs every (start, in place?, sequence) on one session per dialect.
+func enumWalks(t *testing.T, test string, tree []Node, starts, seqs [][]string) bool {
 	bytesOf := func(ss []string) [][]byte {
 		var out [][]byte
 		for _, s := range ss {
@@ -705,7 +966,7 @@ func TestEnumWalks(t *testing.T) {
 	}
 	idx := 0
 	for _, dotu := range []bool{false, true} {
-		c := &Case{Tree: enumTree(), SrvDotu: dotu, CliDotu: dotu, Msize: 8192}
+		c := &Case{Tree: tree, SrvDotu: dotu, CliDotu: dotu, Msize: 8192}
 		x, err := setup(c)
 		if x != nil {
 			defer x.close()
@@ -713,9 +974,9 @@ func TestEnumWalks(t *testing.T) {
 		if err != nil {
 			if isInfra(err) {
 				hx.Inconclusive(err.Error())
-				return
+				return false
 			}
-			hx.Violation("enum", c, err.Error())
+			hx.Violation(test, c, err.Error())
 			t.Fatalf("%v", err)
 		}
 		for _, start := range starts {
@@ -737,30 +998,30 @@ func TestEnumWalks(t *testing.T) {
 					if err != nil || r.Type != ref9p.Rwalk || len(r.Wqid) != len(start) {
 						// the plain walk to the starting point is judged by replaying the small case
 						if e := RunCase(small); e != nil && !isInfra(e) {
-							hx.Violation("enum", small, e.Error())
+							hx.Violation(test, small, e.Error())
 							t.Fatalf("%v", e)
 						}
-						hx.Inconclusive(fmt.Sprintf("enum: walk to the start %v failed (%v) but the replayed case passes", start, err))
-						return
+						hx.Inconclusive(fmt.Sprintf("%s: walk to the start %v failed (%v) but the replayed case passes", test, start, err))
+						return false
 					}
 					p := x.root
 					for _, s := range start {
 						p += "/" + s
 					}
 					x.model[1] = p
-					if err := x.doWalk(1, &small.Ops[1]); err != nil {
+					if err := x.doWalk("op 1", &small.Ops[1]); err != nil {
 						if isInfra(err) {
 							hx.Inconclusive(err.Error())
-							return
+							return false
 						}
-						hx.Violation("enum", small, err.Error())
+						hx.Violation(test, small, err.Error())
 						t.Fatalf("%v", err)
 					}
 					for _, f := range []uint32{1, 2} {
 						if _, live := x.model[f]; live {
 							if r, err := x.raw.Clunk(f); err != nil || r.Type != ref9p.Rclunk {
-								hx.Inconclusive(fmt.Sprintf("enum: Tclunk(%d): %v %v", f, err, r))
-								return
+								hx.Inconclusive(fmt.Sprintf("%s: Tclunk(%d): %v %v", test, f, err, r))
+								return false
 							}
 							delete(x.model, f)
 						}
@@ -770,5 +1031,5 @@ func TestEnumWalks(t *testing.T) {
 		}
 		x.close()
 	}
-	hx.Exhaustive("fixed 11-node tree (dirs, files, hard link, symlinks to a directory / to the parent / dangling / to itself): every Twalk of 0..3 names over {a,b,c,f,l,x} from 7 starting fids (root, dir, nested dir, 2 files, symlink to dir, dangling symlink), to a new fid and in place, both dialects")
+	return true
 }
